@@ -134,6 +134,7 @@ class _RpcResource:
                     status_code=e.status_code,
                     schema=e.schema,
                     server_id=self._app._server.server_id,
+                    preamble=e.preamble,
                 )
             _apply_cookies_to_response(resp, cookies)
         finally:
@@ -165,6 +166,7 @@ class _StreamInitResource:
                     status_code=e.status_code,
                     schema=e.schema,
                     server_id=self._app._server.server_id,
+                    preamble=e.preamble,
                 )
                 return
             resp.content_type = _ARROW_CONTENT_TYPE
@@ -201,6 +203,7 @@ class _ExchangeResource:
                     status_code=e.status_code,
                     schema=e.schema,
                     server_id=self._app._server.server_id,
+                    preamble=e.preamble,
                 )
                 return
             resp.content_type = _ARROW_CONTENT_TYPE
